@@ -7,7 +7,8 @@
 //	{"op":"run","kind":"generate"|"chat","model":"plain"|"tools"|"tools2","tools":bool,"format":""|"json","raw":bool,
 //	 "stop":bool,"prompt":hex,"splits":[[chunk,...],...],"end":{"kind":"done"|"error"|"silent","reason":0|1|2,
 //	 "content":hex,"pc":int,"ec":int,"err":hex},"tokfail":bool,"modes":["st","ns","cst","cns","v1st","v1stu","v1ns"]}
-//	   chunk = hex string | {"rep":hex,"n":count}
+//	   chunk = hex string | {"rep":hex,"n":count};  optional "reqvar": present-but-empty/null fields injected into the raw JSON
+//	   request bodies of the raw HTTP modes (see applyVariants)
 //	   -> {"runs":[{"split":i,"mode":m,"status":int,"recs":[...],"cerr":text,"req":{...}}...]}
 //	{"op":"parse","model":name,"texts":[hex,...]} -> {"res":[{"ok":bool,"calls":[{"name":hex,"args":hex}]}...]}
 //	{"op":"client","status":int,"lines":[{"kind":"msg"|"done"|"error"|"garbage","len":n,"nl":bool}...],
@@ -449,6 +450,7 @@ type runObs struct {
 	Recs   []rec          `json:"recs"`
 	CErr   string         `json:"cerr"`   // api.Client: returned error text ("" = nil)
 	HasErr bool           `json:"haserr"` // api.Client returned a non-nil error
+	Body   string         `json:"body"`   // the raw JSON request body that was sent (raw HTTP modes)
 	Trail  string         `json:"trail"`  // bytes after the last complete line / event
 	Req    map[string]any `json:"req"`
 }
@@ -483,6 +485,8 @@ func doRun(c map[string]any) any {
 		}
 	}
 	var runs []runObs
+	curVars, _ = c["reqvar"].([]any)
+	defer func() { curVars = nil }()
 	splits, _ := c["splits"].([]any)
 	for si, sp := range splits {
 		sc := script{endKind: end["kind"].(string), reason: hx.Int(end["reason"]), content: hx.Unhex(end["content"]),
@@ -519,6 +523,61 @@ func doRun(c map[string]any) any {
 		}
 	}
 	return map[string]any{"runs": runs}
+}
+
+// request variants: fields that are present but empty or null in the RAW JSON body (the Go api.Client can never send them:
+// omitempty).  curVars = [{"path":"tools"|"options.stop"|"messages.0.images"|..., "raw":"[]"|"null"|"\"\""|"{}", "modes":[...]}]
+var curVars []any
+
+func setPath(node any, path []string, val any) any {
+	if len(path) == 0 {
+		return val
+	}
+	switch n := node.(type) {
+	case map[string]any:
+		n[path[0]] = setPath(n[path[0]], path[1:], val)
+		return n
+	case []any:
+		i := 0
+		fmt.Sscanf(path[0], "%d", &i)
+		if i < len(n) {
+			n[i] = setPath(n[i], path[1:], val)
+		}
+		return n
+	case nil:
+		return setPath(map[string]any{}, path, val)
+	}
+	return node
+}
+
+func applyVariants(bts []byte, mode string) []byte {
+	if len(curVars) == 0 {
+		return bts
+	}
+	var root any
+	if err := json.Unmarshal(bts, &root); err != nil {
+		panic(err)
+	}
+	for _, v := range curVars {
+		vm := v.(map[string]any)
+		ok := false
+		for _, m := range vm["modes"].([]any) {
+			ok = ok || m.(string) == mode
+		}
+		if !ok {
+			continue
+		}
+		var val any
+		if err := json.Unmarshal([]byte(vm["raw"].(string)), &val); err != nil {
+			panic(err)
+		}
+		root = setPath(root, strings.Split(vm["path"].(string), "."), val)
+	}
+	out, err := json.Marshal(root)
+	if err != nil {
+		panic(err)
+	}
+	return out
 }
 
 func oneRun(o *runObs, kind, model string, withTools bool, format string, raw, stop bool, prompt, mode string) {
@@ -606,6 +665,8 @@ func oneRun(o *runObs, kind, model string, withTools bool, format string, raw, s
 		body = b
 	}
 	bts, _ := json.Marshal(body)
+	bts = applyVariants(bts, mode)
+	o.Body = string(bts)
 	resp, err := http.Post(base+path, "application/json", bytes.NewReader(bts))
 	if err != nil {
 		o.HasErr, o.CErr = true, err.Error()
